@@ -35,6 +35,16 @@ EXTRA = [
     "f = #['int, 'int] { | =[0, y] => y | =[x, y] => [[x, 1] __integer_subtract__, [x, y] __integer_multiply__] ^ }, [4, 1] f",
     "g = #{ 10 }, f = #'int { &g ^~ }, 5 f",
     "f = #('int | []) { | =[] => 0 | =0 => [] ^ | [~, 1] __integer_subtract__ ^ }, 2 f",
+    # function values in higher-order positions: parameters are CONTRAVARIANT - a function that accepts less than the
+    # declared function type must be rejected, one that accepts more must be accepted (seeded change C01-3: the
+    # parameter comparison of the callable-vs-callable relation ended up in declaration order)
+    "ap = #[(#('int | 'bin) -> 'int), 'bin] { $.1 $.0 }, f = #'int { [~, 1] __integer_add__ }, [&f, 0x01] ap",
+    "ap = #[(#('int | 'bin) -> 'int), 'int] { $.1 $.0 }, f = #'int { [~, 1] __integer_add__ }, [&f, 4] ap",
+    "ap = #[(#'int -> 'int), 'int] { $.1 $.0 }, f = #('int | 'bin) { | ='int => [~, 1] __integer_add__ | 0 }, [&f, 4] ap",
+    "hs = [on_a: #'int { [~, 1] __integer_add__ }, on_b: #'bin { 2 }], run = #[on_a: (#('int | 'bin) -> 'int), on_b: (#'bin -> 'int)] { 0x05 $.on_a }, hs run",
+    "w = #(#(A['int] | B) -> 'int) { B $ }, g = #A['int] { .0 }, &g w",
+    "w = #(#A['int] -> 'int) { A[3] $ }, g = #(A['int] | B) { | =A[n] => n | 0 }, &g w",
+    "k = #'int { [~, 1] __integer_add__ }, p = &k @#(#('int | 'bin) -> 'int) { =h, 0x01 h }, !p",
     # generics applied at union and non-union arguments
     "id = #<'t>'t { $ }, [1 id, 0x01 id, [] id, R[1] id]",
     "'opt<'t> = 't | []\nget = #<'t>['opt<'t>, 't] { | =[[], d] => d | =[v, _] => v }, [[[], 5] get, [7, 5] get]",
@@ -129,6 +139,9 @@ def run(prop, tier):
         reqs.append({"id": "t%d" % n, "src": src, "kind": "extra"})
     for n, src in enumerate(spread_cases()):
         reqs.append({"id": "s%d" % n, "src": src, "kind": "spreads"})
+    import extra_sources
+    for n, src in enumerate(extra_sources.EXTRA_SOURCES):
+        reqs.append({"id": "e%d" % n, "src": src, "kind": "extra"})
     for n, src in enumerate(access_cases()):
         reqs.append({"id": "a%d" % n, "src": src, "kind": "access"})
     progs = [s for _, s in corpus.test_sources() + corpus.spec_blocks()]
